@@ -4,6 +4,8 @@
 package proj
 
 import (
+	"crypto/sha256"
+	"encoding/hex"
 	"fmt"
 	"reflect"
 	"sort"
@@ -14,6 +16,7 @@ import (
 	"github.com/cockroachdb/errors/errbase"
 	"github.com/cockroachdb/errors/extgrpc"
 	"github.com/cockroachdb/errors/exthttp"
+	"github.com/cockroachdb/redact"
 	"google.golang.org/grpc/codes"
 
 	"verifharness/internal/cat"
@@ -137,6 +140,19 @@ func AllNodes(e error) []error {
 	return out
 }
 
+// VisNodes lists the visible nodes, pre-order (spec: VisNodes).
+func VisNodes(e error) []error {
+	if e == nil {
+		return nil
+	}
+	out := []error{e}
+	_, kids := Kids(e)
+	for _, c := range kids {
+		out = append(out, VisNodes(c)...)
+	}
+	return out
+}
+
 func lexAll(ss []string) [][]string {
 	out := [][]string{}
 	for _, s := range ss {
@@ -186,6 +202,37 @@ func AccOf(e error) *Acc {
 	return a
 }
 
+// SafeLayer is one layer of GetAllSafeDetails.
+type SafeLayer struct {
+	TN string     `json:"tn"` // original type name, as catalogue name
+	D  []string   `json:"d"`  // hash of every detail string
+	W  [][]string `json:"w"`  // words of every detail string
+}
+
+func hash(s string) string {
+	h := sha256.Sum256([]byte(s))
+	return hex.EncodeToString(h[:6])
+}
+
+// SafeOf abstracts GetAllSafeDetails.
+func SafeOf(e error) []SafeLayer {
+	out := []SafeLayer{}
+	for _, p := range errors.GetAllSafeDetails(e) {
+		l := SafeLayer{TN: cat.FamOf(p.OriginalTypeName), D: []string{}, W: [][]string{}}
+		for _, d := range p.SafeDetails {
+			l.D = append(l.D, hash(d))
+			l.W = append(l.W, tok.Words(d))
+		}
+		out = append(out, l)
+	}
+	return out
+}
+
+// Verbose renders %+v, plain and redactable.
+func Verbose(e error) (plain, redactable string) {
+	return fmt.Sprintf("%+v", e), string(redact.Sprintf("%+v", e))
+}
+
 // IsOne evaluates errors.Is, recovering a panic as "P".
 func IsOne(e, r error) (res string) {
 	defer func() {
@@ -206,4 +253,41 @@ func IsVec(e error, pool []error) []string {
 		out[i] = IsOne(e, r)
 	}
 	return out
+}
+
+// IsVec2 is IsVec with the arguments in the other role: Is(e, r) for each r.
+func IsVec2(e error, refs []error) []string { return IsVec(e, refs) }
+
+// IsX records the boundary cases of Is / IsAny.
+type IsX struct {
+	Any    string `json:"any"`    // IsAny(e, pool...)
+	None   string `json:"none"`   // IsAny(e)
+	NilL   string `json:"nilL"`   // Is(nil, e)
+	NilR   string `json:"nilR"`   // Is(e, nil)
+	NilNil string `json:"nilnil"` // Is(nil, nil)
+	AnyNil string `json:"anyNil"` // IsAny(e, nil)
+}
+
+func b2s(f func() bool) (res string) {
+	defer func() {
+		if x := recover(); x != nil {
+			res = "P"
+		}
+	}()
+	if f() {
+		return "T"
+	}
+	return "F"
+}
+
+// IsXOf evaluates them.
+func IsXOf(e error, pool []error) *IsX {
+	return &IsX{
+		Any:    b2s(func() bool { return errors.IsAny(e, pool...) }),
+		None:   b2s(func() bool { return errors.IsAny(e) }),
+		NilL:   b2s(func() bool { return errors.Is(nil, e) }),
+		NilR:   b2s(func() bool { return errors.Is(e, nil) }),
+		NilNil: b2s(func() bool { return errors.Is(nil, nil) }),
+		AnyNil: b2s(func() bool { return errors.IsAny(e, nil) }),
+	}
 }
